@@ -184,7 +184,7 @@ def queries_1d(rng, xs, nseg, ndense, shuffle=True, zone=True):
             Q.append((a, rng.choice([5, 7, 100])))
         if j > 0:
             xl = na(a, -INF)
-            Q += [(xl, -1), (xl, 1)]
+            Q += [(xl, -1), (xl, 1), (xl, 2), (xl, 3)]
         xr = na(a, INF)
         Q += [(xr, -1), (xr, 1)]
         nd = ndense if idx < 6 else 6
@@ -645,28 +645,32 @@ def oracle_1d(P, vals, ctx):
                     if d[3] != d0[3]:
                         out.append(fail("prop", "third derivative not constant on a segment", "j=%d %r vs %r" % (j, d0[3], d[3])))
                 prevT = (x, v, d)
-    # C1 across interior knots
+    # C1 across interior knots: the left segment, continued to the knot by its own reported derivatives
+    # (exact Taylor polynomial of a cubic), must meet the value and slope reported at the knot (right segment)
     for j in range(1, N - 1):
         xk = xs[j]; xl = na(xk, -INF)
         if xk in pts and xl in pts and xl > xs[j - 1]:
             dk, dl_ = pts[xk], pts[xl]
+            if not all(k in dl_ for k in (-1, 1, 2, 3)):
+                continue
             hm = X[j] - X[j - 1]
-            sm = abs((Y[j] - Y[j - 1]) / hm)
             gap = X[j] - Fraction(xl)
             Ym = max(abs(Y[j - 1]), abs(Y[j]), abs(Y[j + 1]))
-            va, vb = dl_.get(-1), dk.get(-1, dk.get(0))
-            if va is not None and vb is not None:
-                e = abs(Fraction(va) - Fraction(vb))
-                tol = K_VAL * EPS * Ym * ap + 4 * ap * sm * gap
-                if e > tol:
-                    out.append(fail("prop", "value jumps across a knot", "knot %d x=%r: %r | %r" % (j, xk, va, vb)))
-            if 1 in dk and 1 in dl_:
-                e = abs(Fraction(dk[1]) - Fraction(dl_[1]))
-                sc = Ym / hm
-                worst(ctx, "worst_c1_jump", ratio(max(e - 60 * ap * sm / hm * gap, 0), sc * ap))
-                tol = K_DER * EPS * sc * ap + 60 * ap * sm / hm * gap
-                if e > tol:
-                    out.append(fail("prop", "first derivative jumps across a knot", "knot %d x=%r: %r | %r" % (j, xk, dl_[1], dk[1])))
+            vb = dk.get(-1, dk.get(0))
+            if vb is not None:
+                t = [Fraction(dl_[-1]), Fraction(dl_[1]) * gap, Fraction(dl_[2]) * gap ** 2 / 2, Fraction(dl_[3]) * gap ** 3 / 6]
+                sc = sum(abs(a) for a in t) + Ym * ap
+                e = abs(sum(t) - Fraction(vb))
+                worst(ctx, "worst_c0_jump", ratio(e, sc))
+                if e > K_TAY * EPS * sc:
+                    out.append(fail("prop", "value jumps across a knot", "knot %d x=%r: left limit %r | %r" % (j, xk, float(sum(t)), vb)))
+            if 1 in dk:
+                t = [Fraction(dl_[1]), Fraction(dl_[2]) * gap, Fraction(dl_[3]) * gap ** 2 / 2]
+                sc = sum(abs(a) for a in t) + abs(Fraction(dk[1])) + Ym / hm * ap
+                e = abs(sum(t) - Fraction(dk[1]))
+                worst(ctx, "worst_c1_jump", ratio(e, sc))
+                if e > K_TAY * EPS * sc:
+                    out.append(fail("prop", "first derivative jumps across a knot", "knot %d x=%r: left limit %r | %r" % (j, xk, float(sum(t)), dk[1])))
     return out
 
 
